@@ -1,3 +1,4 @@
+pub mod enumerate;
 pub mod explain;
 pub mod interp;
 pub mod lockfuzz;
